@@ -17,3 +17,4 @@ pub mod storage;
 pub mod c15;
 pub mod c14;
 pub mod ctl;
+pub mod c05;
